@@ -180,7 +180,12 @@ pub fn run_case(
             }
             Err(_) => {
                 t.panics += 1;
-                writeln!(t.out, "O {} | -1000 | 0 | 0 0 0 0 | ", join(&op)).unwrap();
+                // the call panicked inside the library (no panic is injected in these runs): what did it leave
+                // behind?  `-1001` then the weak audit of every internal list (`code chain_len index_len`)
+                let wa = catch_unwind(AssertUnwindSafe(|| subj.weak_audit(1 << 16))).unwrap_or_else(|_| vec![9, 0, 0]);
+                let mut post: Ints = vec![-1001];
+                post.extend(wa);
+                writeln!(t.out, "O {} | -1000 | 0 | 0 0 0 0 | {}", join(&op), join(&post)).unwrap();
                 std::mem::forget(subj);
                 if t.samples.len() < 3 {
                     t.samples.push(sample);
